@@ -32,13 +32,14 @@ open Upnp.Gen
 /-- the entity table `_format_request_args` hands to `escape` sends CR as a character reference -/
 theorem escape_table_pin : C06Types.escapeExtra = crTable := by decide
 
-/-- every row of `STATE_VARIABLE_TYPE_MAPPING` except `time.tz` has an `out` coercer whose result
-    its `in` coercer decodes (integers through `str(int(v))`, booleans `1`/`0` with `1` accepted and
-    `0` not, dates/times by the matching `isoformat`).
-    `_partial`: `time.tz` is excluded — its `out` coercer `t.isoformat("T", "seconds")` raises
-    `TypeError` on every `datetime.time` (defect F08a of C08; known finding `F08a-C06`). -/
-theorem type_table_sound_partial :
-    ∀ row ∈ C06Types.table, row.name ≠ "time.tz".toList → rowSound row = true := by decide
+/-- every row of `STATE_VARIABLE_TYPE_MAPPING` has an `out` coercer whose result its `in` coercer
+    decodes (integers through `str(int(v))`, booleans `1`/`0` with `1` accepted and `0` not,
+    dates/times by the `isoformat` call that exists for their class — `time.tz` included since the
+    repair of F08a). -/
+theorem type_table_sound : ∀ row ∈ C06Types.table, rowSound row = true := by decide
+
+/-- `create_request` writes the service type into `xmlns:u=` through `quoteattr` -/
+theorem ns_attr_pin : C06Types.nsAttrQuoted = true := by decide
 
 /-- the refusals are the library's error: both classes descend from `UpnpError` -/
 theorem exc_hierarchy_pin :
@@ -55,12 +56,20 @@ theorem int_roundtrip (n : Int) : pyInt? (decOfInt n) = some n := pyInt_decOfInt
 theorem escape_lossless (s : Str) : xmlDecodeText (escape C06Types.escapeExtra s) = some s := by
   rw [escape_table_pin]; exact decode_escape s
 
-/-- the envelope the client emits reads back as exactly what it was built from -/
+/-- the envelope the client emits reads back as exactly what it was built from, for EVERY service
+    type (any characters: it is quoted by `quoteattr`, whose result `xmlDecodeAttr` inverts) and
+    every action / argument name in the XML-name domain -/
 theorem body_reads_back (name st : Str) (args : List (Str × Str))
-    (hn : ' ' ∉ name) (hs : '"' ∉ st) (ha : ∀ p ∈ args, nameOk p.1 = true) :
-    readEnvelope (renderBody C06Types.escapeExtra name st args)
+    (hn : xmlNameOk name = true) (ha : ∀ p ∈ args, xmlNameOk p.1 = true) :
+    readEnvelope (renderBody C06Types.escapeExtra C06Types.nsAttrQuoted name st args)
       = some { action := name, ns := st, args := args } := by
-  rw [escape_table_pin]; exact readEnvelope_render name st args hn hs ha
+  rw [escape_table_pin, ns_attr_pin]
+  exact readEnvelope_render name st args (xmlNameOk_nameOk name hn).2 (fun p hp => (xmlNameOk_nameOk p.1 (ha p hp)).1)
+
+/-- `quoteattr` is lossless: the receiver's attribute-value decoding returns the service type -/
+theorem ns_attr_lossless (st : Str) :
+    ∃ (q : Char) (v : Str), (q = '"' ∨ q = '\'') ∧ quoteattr st = q :: v ++ [q] ∧ q ∉ v
+      ∧ xmlDecodeAttr v = some st := quoteattr_spec st
 
 /-- every value the schema accepts is rendered to a text that the declared `in` coercion decodes
     back to it (Python `==`; `bool ⊑ int`), and that text survives escaping -/
@@ -104,10 +113,10 @@ theorem schema_is_accepts (O : Oracles) (strict : Bool) (d : VarDecl) (v : PyVal
 
 /-- an assignment that omits an in-argument or violates type / range / allowed list is refused
     with `UpnpError` / `UpnpValueError`, and nothing is sent -/
-theorem refusal_before_send (O : Oracles) (extra : List (Char × Str)) (a : ActionDecl) (kw : Kwargs)
+theorem refusal_before_send (O : Oracles) (extra : List (Char × Str)) (nsq : Bool) (a : ActionDecl) (kw : Kwargs)
     (hurl : (urljoin a.deviceUrl a.controlUrl).isSome = true)
     (h : allAccepted O a.strict a.inArgs kw = some false) :
-    asyncCallSend O extra a kw = ([], some .upnpError) ∨ asyncCallSend O extra a kw = ([], some .upnpValueError) := by
+    asyncCallSend O extra nsq a kw = ([], some .upnpError) ∨ asyncCallSend O extra nsq a kw = ([], some .upnpValueError) := by
   unfold asyncCallSend createRequest
   cases hu : urljoin a.deviceUrl a.controlUrl with
   | none => simp [hu] at hurl
@@ -128,7 +137,7 @@ theorem c06_model_ok (O : Oracles) (anc : String → List String) (a : ActionDec
     (hanc1 : (anc "UpnpError").contains "UpnpError" = true)
     (hanc2 : (anc "UpnpValueError").contains "UpnpError" = true)
     (H : Hyp O a kw) :
-    ok O a kw (modelObs anc (asyncCallSend O crTable a kw)) = true := by
+    ok O a kw (modelObs anc (asyncCallSend O crTable true a kw)) = true := by
   unfold ok
   cases hacc : allAccepted O a.strict a.inArgs kw with
   | none => rfl
@@ -140,7 +149,7 @@ theorem c06_model_ok (O : Oracles) (anc : String → List String) (a : ActionDec
       | false =>
         have h1 : "UpnpError" ∈ anc "UpnpError" := by simpa using hanc1
         have h2 : "UpnpError" ∈ anc "UpnpValueError" := by simpa using hanc2
-        rcases refusal_before_send O crTable a kw H.url hacc with h | h <;>
+        rcases refusal_before_send O crTable true a kw H.url hacc with h | h <;>
           simp [h, modelObs, excInfo, ExcInfo.isLibraryError, Exc.tok, h1, h2]
       | true =>
         obtain ⟨args, hc, hn, hok⟩ := coerceArgs_ok O a.strict kw a.inArgs hacc H.rows H.oracle
@@ -150,16 +159,16 @@ theorem c06_model_ok (O : Oracles) (anc : String → List String) (a : ActionDec
           have : p.1 ∈ args.map (·.1) := List.mem_map.mpr ⟨p, hp, rfl⟩
           rw [hn] at this
           obtain ⟨d, hd, hdn⟩ := List.mem_map.mp this
-          rw [← hdn]; exact H.names d hd
-        have hsend : asyncCallSend O crTable a kw =
+          rw [← hdn]; exact (xmlNameOk_nameOk _ (H.names d hd)).1
+        have hsend : asyncCallSend O crTable true a kw =
             ([{ method := "POST".toList, url := u,
                 headers := [("SOAPAction".toList, '"' :: a.serviceType ++ '#' :: a.name ++ ['"']),
                             ("Host".toList, netloc u),
                             ("Content-Type".toList, "text/xml; charset=\"utf-8\"".toList)],
-                body := renderBody crTable a.name a.serviceType args }], none) := by
+                body := renderBody crTable true a.name a.serviceType args }], none) := by
           simp [asyncCallSend, createRequest, hu, hv, hc]
         rw [hsend]
-        simp only [modelObs, readEnvelope_render a.name a.serviceType args H.action H.serviceType hnames,
+        simp only [modelObs, readEnvelope_render a.name a.serviceType args (xmlNameOk_nameOk _ H.action).2 hnames,
           Option.map_some, header_soapaction, header_host, header_ctype]
         have hct : contentTypeOk "text/xml; charset=\"utf-8\"".toList = true := by decide
         rw [hct, envelopeOk_tree O a kw args hok]
@@ -168,8 +177,8 @@ theorem c06_model_ok (O : Oracles) (anc : String → List String) (a : ActionDec
 /-- the same, instantiated with the tables generated from the source -/
 theorem c06_model_ok_gen (O : Oracles) (a : ActionDecl) (kw : Kwargs) (H : Hyp O a kw) :
     ok O a kw (modelObs (fun c => (C06Types.excAncestors.lookup c).getD [])
-      (asyncCallSend O C06Types.escapeExtra a kw)) = true := by
-  rw [escape_table_pin]
+      (asyncCallSend O C06Types.escapeExtra C06Types.nsAttrQuoted a kw)) = true := by
+  rw [escape_table_pin, ns_attr_pin]
   exact c06_model_ok O _ a kw exc_hierarchy_pin.1 exc_hierarchy_pin.2 H
 
 /-! ### non-vacuity -/
@@ -182,7 +191,7 @@ private def rowOf (n : String) : TypeRow :=
     Mute: boolean) -> Old: ui2 -/
 private def exAction : ActionDecl :=
   { name := "SetVolume".toList,
-    serviceType := "urn:schemas-upnp-org:service:RenderingControl:1".toList,
+    serviceType := "urn:acme&co:service:R\"C:1".toList,
     deviceUrl := "http://192.168.1.10:8080/desc/root.xml".toList,
     controlUrl := "/ctl/rc".toList,
     args := [⟨"InstanceID".toList, true, { row := rowOf "ui4" }⟩,
@@ -204,17 +213,17 @@ private def exKw : Kwargs :=
 example :
     Hyp exO exAction exKw
     ∧ allAccepted exO true exAction.inArgs exKw = some true
-    ∧ (asyncCallSend exO C06Types.escapeExtra exAction exKw).1.map (fun r => (r.url, r.body)) =
+    ∧ (asyncCallSend exO C06Types.escapeExtra C06Types.nsAttrQuoted exAction exKw).1.map (fun r => (r.url, r.body)) =
         [("http://192.168.1.10:8080/ctl/rc".toList,
           ("<?xml version=\"1.0\"?><s:Envelope s:encodingStyle=\"http://schemas.xmlsoap.org/soap/encoding/\"" ++
            " xmlns:s=\"http://schemas.xmlsoap.org/soap/envelope/\"><s:Body>" ++
-           "<u:SetVolume xmlns:u=\"urn:schemas-upnp-org:service:RenderingControl:1\">" ++
+           "<u:SetVolume xmlns:u='urn:acme&amp;co:service:R\"C:1'>" ++
            "<InstanceID>1</InstanceID>\n<Channel>a&lt;b&#13;&amp;</Channel>\n<DesiredVolume>100</DesiredVolume>\n<Mute>0</Mute>" ++
            "</u:SetVolume></s:Body></s:Envelope>").toList)]
-    ∧ asyncCallSend exO C06Types.escapeExtra exAction (("DesiredVolume".toList, .int 101) :: exKw)
+    ∧ asyncCallSend exO C06Types.escapeExtra C06Types.nsAttrQuoted exAction (("DesiredVolume".toList, .int 101) :: exKw)
         = ([], some .upnpValueError)
-    ∧ asyncCallSend exO C06Types.escapeExtra exAction (exKw.drop 1) = ([], some .upnpError) := by
-  refine ⟨⟨by decide +kernel, by decide +kernel, by decide +kernel, by decide +kernel, by decide +kernel, ?_⟩, by decide +kernel, by decide +kernel, by rfl, by rfl⟩
+    ∧ asyncCallSend exO C06Types.escapeExtra C06Types.nsAttrQuoted exAction (exKw.drop 1) = ([], some .upnpError) := by
+  refine ⟨⟨by decide +kernel, by decide +kernel, by decide +kernel, by decide +kernel, ?_⟩, by decide +kernel, by decide +kernel, by rfl, by rfl⟩
   intro d hd v hv
   have hnames : exAction.inArgs.map (·.name) =
       ["InstanceID".toList, "Channel".toList, "DesiredVolume".toList, "Mute".toList] := by decide +kernel
